@@ -70,11 +70,45 @@ theorem cascadeOver_removed {del : St → Bytes → Res} {f : EntA → FV} {id :
       | inl h => exact Or.inl h
       | inr h => exact Or.inr (h.mono hsub1)
 
-theorem lift_things_as {s s1 : St} {r : Except Err (Map (List Bytes))} (h : liftThings s r = .ok s1) : s1.as = s.as := by
-  obtain ⟨m, _, rfl⟩ := lift_ok_things h; rfl
+theorem ownerDel_as {del : List Bytes → St → Bytes → Res} {prog : List Bytes} {id : Bytes} {s s1 : St}
+    (h : beforeDeleteA del prog id s .ownerIdx = .ok s1) : s1.as = s.as := by
+  rw [ownerDel_eq] at h; cases h; rfl
 
-theorem lift_minions_as {s s1 : St} {r : Except Err (Map (List Bytes))} (h : liftMinions s r = .ok s1) : s1.as = s.as := by
-  obtain ⟨m, _, rfl⟩ := lift_ok_minions h; rfl
+theorem bossDel_as {del : List Bytes → St → Bytes → Res} {prog : List Bytes} {id : Bytes} {s s1 : St}
+    (h : beforeDeleteA del prog id s .bossIdx = .ok s1) : s1.as = s.as := by
+  rw [bossDel_eq] at h; cases h; rfl
+
+/-- what one round removes: only entities outside the in-progress set that refer to `id` transitively -/
+theorem pass_removed {del : List Bytes → St → Bytes → Res} {prog : List Bytes} {s s3 : St} {id : Bytes}
+    (hdel : ∀ st x st', del (mark prog id) st x = .ok st' →
+      Sub st' st ∧ ∀ k e, st.as.lookup k = some e → st'.as.lookup k = none →
+        k = x ∨ (k ∉ mark (mark prog id) x ∧ Reach st.as x k))
+    (h : PassOk del prog id s s3) :
+    Sub s3 s ∧ ∀ k e, s.as.lookup k = some e → s3.as.lookup k = none → k ∉ mark prog id ∧ Reach s.as id k := by
+  obtain ⟨s1, s2, h1, h2, h3⟩ := h
+  have has2 : s2.as = s.as := (bossDel_as h2).trans (ownerDel_as h1)
+  have hdel' : ∀ st x st', x ∉ mark prog id → del (mark prog id) st x = .ok st' →
+      Sub st' st ∧ ∀ k e, st.as.lookup k = some e → st'.as.lookup k = none →
+        k ∉ mark prog id ∧ (k = x ∨ Reach st.as x k) := by
+    intro st x st' hx hd
+    obtain ⟨a, b⟩ := hdel st x st' hd
+    refine ⟨a, fun k e he hn => ?_⟩
+    rcases b k e he hn with rfl | ⟨h1, h2⟩
+    · exact ⟨hx, Or.inl rfl⟩
+    · exact ⟨fun hk => h1 ((mem_mark _ _ _).2 (Or.inr hk)), Or.inr h2⟩
+  obtain ⟨hsub3, hrem3⟩ := cascadeOver_removed (f := (·.boss)) (id := id) hdel' _ s2 s3 h3
+  constructor
+  · intro k e he
+    have := hsub3 k e he
+    rw [has2] at this; exact this
+  · intro k e he hn
+    rw [← has2] at he
+    obtain ⟨hks, x, ex, hx, hfx, hkx⟩ := hrem3 k e he hn
+    rw [has2] at hx
+    refine ⟨hks, ?_⟩
+    cases hkx with
+    | inl h => subst h; exact .direct hx hfx
+    | inr h => exact Reach.under hx hfx (has2 ▸ h)
 
 /-- **soundness of the cascade**: whatever a successful `DeleteById` on A removes is the target or
     refers to it transitively — and is not in progress; every other table entry is untouched
@@ -88,40 +122,43 @@ theorem deleteA_removed (σ : Schema) : ∀ (n : Nat) (prog : List Bytes) (s : S
   | zero => intro prog s id s' h; simp [deleteA] at h
   | succ n ih =>
     intro prog s id s' h
-    obtain ⟨_, s1, s2, s3, h1, h2, h3, _, rfl⟩ := deleteA_succ_ok h
-    rw [ownerDel_eq] at h1
-    rw [bossDel_eq] at h2
-    have has2 : s2.as = s.as := (lift_minions_as h2).trans (lift_things_as h1)
-    have hdel : ∀ st x st', x ∉ mark prog id → deleteA σ n (mark prog id) st x = .ok st' →
-        Sub st' st ∧ ∀ k e, st.as.lookup k = some e → st'.as.lookup k = none →
-          k ∉ mark prog id ∧ (k = x ∨ Reach st.as x k) := by
-      intro st x st' hx hd
-      obtain ⟨a, b⟩ := ih (mark prog id) st x st' hd
-      refine ⟨a, fun k e he hn => ?_⟩
-      rcases b k e he hn with rfl | ⟨h1, h2⟩
-      · exact ⟨hx, Or.inl rfl⟩
-      · exact ⟨fun hk => h1 ((mem_mark _ _ _).2 (Or.inr hk)), Or.inr h2⟩
-    obtain ⟨hsub3, hrem3⟩ := cascadeOver_removed (f := (·.boss)) (id := id) hdel _ s2 s3 h3
+    obtain ⟨_, s0, s3, h0, hp, _, rfl⟩ := deleteA_succ_ok h
+    have hdel := fun st x st' hd => ih (mark prog id) st x st' hd
+    have hfin : Sub s3 s ∧ ∀ k e, s.as.lookup k = some e → s3.as.lookup k = none →
+        k ∉ mark prog id ∧ Reach s.as id k := by
+      rcases h0 with ⟨_, rfl⟩ | ⟨_, hp0⟩
+      · exact pass_removed hdel hp
+      · obtain ⟨hsub0, hrem0⟩ := pass_removed hdel hp0
+        obtain ⟨hsub3, hrem3⟩ := pass_removed hdel hp
+        refine ⟨hsub3.trans hsub0, fun k e he hn => ?_⟩
+        cases h0k : s0.as.lookup k with
+        | none => exact hrem0 k e he h0k
+        | some e0 =>
+          obtain ⟨a, b⟩ := hrem3 k e0 h0k hn
+          exact ⟨a, b.mono hsub0⟩
+    obtain ⟨hsub3, hrem3⟩ := hfin
     constructor
     · intro k e he
       simp only [Map.lookup_erase] at he
       by_cases hk : k = id
       · simp [hk] at he
       · simp only [hk, if_false] at he
-        have := hsub3 k e he
-        rw [has2] at this; exact this
+        exact hsub3 k e he
     · intro k e he hn
       simp only [Map.lookup_erase] at hn
       by_cases hk : k = id
       · exact Or.inl hk
       · simp only [hk, if_false] at hn
-        rw [← has2] at he
-        obtain ⟨hks, x, ex, hx, hfx, hkx⟩ := hrem3 k e he hn
-        rw [has2] at hx
-        refine Or.inr ⟨hks, ?_⟩
-        cases hkx with
-        | inl h => subst h; exact .direct hx hfx
-        | inr h => exact Reach.under hx hfx (has2 ▸ h)
+        exact Or.inr (hrem3 k e he hn)
+
+/-- a round never removes an entity that is in progress — in particular not the entity being deleted:
+    the second `FindById` of `DeleteById` (A's own `processDeleteConstraints`) always finds it -/
+theorem pass_keeps_id {σ : Schema} {n : Nat} {prog : List Bytes} {s s3 : St} {id : Bytes} {e : EntA}
+    (h : passA σ (deleteA σ n) prog id s = .ok s3) (he : s.as.lookup id = some e) : s3.as.lookup id = some e := by
+  obtain ⟨hsub, hrem⟩ := pass_removed (fun st x st' hd => deleteA_removed σ n (mark prog id) st x st' hd) (passA_ok h)
+  cases hk : s3.as.lookup id with
+  | some v => have := hsub id v hk; rw [he] at this; cases this; rfl
+  | none => exact absurd ((mem_mark prog id id).2 (Or.inl rfl)) (hrem id e he hk).1
 
 /-- **completeness of the cascade**, from the invariant of the result: nothing that referred to a
     removed entity survives -/
@@ -190,75 +227,75 @@ theorem bind_error {α β : Type} {x : Except Err α} {f : α → Except Err β}
   | error e' => simp [bind, Except.bind]
   | ok a => simp [bind, Except.bind]
 
-theorem idx_lift_no_diverge_things {s : St} {r : Except Err (Map (List Bytes))} (hr : r ≠ .error .diverge) :
-    liftThings s r ≠ .error .diverge := by
-  cases r with
-  | error e => intro h; simp only [liftThings] at h; cases h; exact hr rfl
-  | ok m => intro h; cases h
+/-- a diverging round diverges inside its cascade loop -/
+theorem passA_diverge {σ : Schema} {del : List Bytes → St → Bytes → Res} {prog : List Bytes} {s : St} {id : Bytes}
+    (hF : passA σ del prog id s = .error .diverge) :
+    ∃ s2, s2.as = s.as ∧
+      cascadeOver (del (mark prog id)) (·.boss) id (mark prog id) (referrers s2 (·.boss) id) s2 = .error .diverge := by
+  have hown : ∀ st, beforeDeleteA del prog id st .ownerIdx ≠ .error .diverge := by
+    intro st h; rw [ownerDel_eq] at h; cases h
+  have hboss : ∀ st, beforeDeleteA del prog id st .bossIdx ≠ .error .diverge := by
+    intro st h; rw [bossDel_eq] at h; cases h
+  have hownas : ∀ st st', beforeDeleteA del prog id st .ownerIdx = .ok st' → st'.as = st.as :=
+    fun st st' h => ownerDel_as h
+  have hbossas : ∀ st st', beforeDeleteA del prog id st .bossIdx = .ok st' → st'.as = st.as :=
+    fun st st' h => bossDel_as h
+  unfold passA orderA at hF
+  cases hdf : σ.depFirst
+  case true =>
+    simp only [hdf, if_true, List.foldlM_cons, List.foldlM_nil, bind_error] at hF
+    rcases hF with h0 | ⟨s0, h0, hF⟩
+    · simp [beforeDeleteA] at h0
+    · simp only [beforeDeleteA] at h0; cases h0
+      rcases hF with h1 | ⟨s1, h1, hF⟩
+      · exact absurd h1 (hown _)
+      · rcases hF with h2 | ⟨s2, h2, hF⟩
+        · exact absurd h2 (hboss _)
+        · rcases hF with h3 | ⟨s3, h3, hF⟩
+          · exact ⟨s2, (hbossas _ _ h2).trans (hownas _ _ h1), h3⟩
+          · cases hF
+  case false =>
+    simp only [hdf, Bool.false_eq_true, if_false, List.foldlM_cons, List.foldlM_nil, bind_error] at hF
+    rcases hF with h1 | ⟨s1, h1, hF⟩
+    · exact absurd h1 (hown _)
+    · rcases hF with h2 | ⟨s2, h2, hF⟩
+      · exact absurd h2 (hboss _)
+      · rcases hF with h3 | ⟨s3, h3, hF⟩
+        · exact ⟨s2, (hbossas _ _ h2).trans (hownas _ _ h1), h3⟩
+        · rcases hF with h4 | ⟨s4, h4, hF⟩
+          · simp [beforeDeleteA] at h4
+          · cases hF
 
-theorem idx_lift_no_diverge_minions {s : St} {r : Except Err (Map (List Bytes))} (hr : r ≠ .error .diverge) :
-    liftMinions s r ≠ .error .diverge := by
-  cases r with
-  | error e => intro h; simp only [liftMinions] at h; cases h; exact hr rfl
-  | ok m => intro h; cases h
-
-theorem idxDel_no_diverge (tgt : Bytes → Bool) (v id : Bytes) (m : Map (List Bytes)) :
-    idxDel tgt v id m ≠ .error .diverge := by
-  unfold idxDel
-  split
-  · split
-    · intro h; cases h
-    · intro h; cases h
-  · intro h; cases h
-
-/-- a diverging `DeleteById` on A diverges inside its cascade loop -/
+/-- a diverging `DeleteById` on A diverges inside the cascade loop of one of its rounds, which runs on a
+    sub-table of the table the call started from -/
 theorem deleteA_diverge_inv {σ : Schema} {m : Nat} {prog : List Bytes} {s : St} {id : Bytes}
     (h : deleteA σ (m + 1) prog s id = .error .diverge) :
-    s.as.contains id = true ∧ ∃ s2, s2.as = s.as ∧
+    s.as.contains id = true ∧ ∃ s2, Sub s2 s ∧
       cascadeOver (deleteA σ m (mark prog id)) (·.boss) id (mark prog id) (referrers s2 (·.boss) id) s2 = .error .diverge := by
   unfold deleteA at h
   split at h
   · next hc =>
     refine ⟨hc, ?_⟩
     split at h
-    · split at h
-      · cases h
-      · cases h
-    · next e hF =>
+    · next s0 h0 =>
+      have hsub0 : Sub s0 s := by
+        split at h0
+        · exact (pass_removed (fun st x st' hd => deleteA_removed σ m (mark prog id) st x st' hd) (passA_ok h0)).1
+        · cases h0; exact Sub.refl _
+      split at h
+      · split at h
+        · cases h
+        · cases h
+      · next e hF =>
+        cases h
+        obtain ⟨s2, has2, hd⟩ := passA_diverge hF
+        exact ⟨s2, fun k e he => hsub0 k e (has2 ▸ he), hd⟩
+    · next e h0 =>
       cases h
-      have hown : ∀ st, beforeDeleteA (deleteA σ m) prog id st .ownerIdx ≠ .error .diverge := by
-        intro st; rw [ownerDel_eq]; exact idx_lift_no_diverge_things (idxDel_no_diverge _ _ _ _)
-      have hboss : ∀ st, beforeDeleteA (deleteA σ m) prog id st .bossIdx ≠ .error .diverge := by
-        intro st; rw [bossDel_eq]; exact idx_lift_no_diverge_minions (idxDel_no_diverge _ _ _ _)
-      have hownas : ∀ st st', beforeDeleteA (deleteA σ m) prog id st .ownerIdx = .ok st' → st'.as = st.as := by
-        intro st st' h; rw [ownerDel_eq] at h; exact lift_things_as h
-      have hbossas : ∀ st st', beforeDeleteA (deleteA σ m) prog id st .bossIdx = .ok st' → st'.as = st.as := by
-        intro st st' h; rw [bossDel_eq] at h; exact lift_minions_as h
-      unfold orderA at hF
-      cases hdf : σ.depFirst
-      case true =>
-        simp only [hdf, if_true, List.foldlM_cons, List.foldlM_nil, bind_error] at hF
-        rcases hF with h0 | ⟨s0, h0, hF⟩
-        · simp [beforeDeleteA] at h0
-        · simp only [beforeDeleteA] at h0; cases h0
-          rcases hF with h1 | ⟨s1, h1, hF⟩
-          · exact absurd h1 (hown _)
-          · rcases hF with h2 | ⟨s2, h2, hF⟩
-            · exact absurd h2 (hboss _)
-            · rcases hF with h3 | ⟨s3, h3, hF⟩
-              · exact ⟨s2, (hbossas _ _ h2).trans (hownas _ _ h1), h3⟩
-              · cases hF
-      case false =>
-        simp only [hdf, Bool.false_eq_true, if_false, List.foldlM_cons, List.foldlM_nil, bind_error] at hF
-        rcases hF with h1 | ⟨s1, h1, hF⟩
-        · exact absurd h1 (hown _)
-        · rcases hF with h2 | ⟨s2, h2, hF⟩
-          · exact absurd h2 (hboss _)
-          · rcases hF with h3 | ⟨s3, h3, hF⟩
-            · exact ⟨s2, (hbossas _ _ h2).trans (hownas _ _ h1), h3⟩
-            · rcases hF with h4 | ⟨s4, h4, hF⟩
-              · simp [beforeDeleteA] at h4
-              · cases hF
+      split at h0
+      · obtain ⟨s2, has2, hd⟩ := passA_diverge h0
+        exact ⟨s2, fun k e he => has2 ▸ he, hd⟩
+      · cases h0
   · cases h
 
 /-- **Termination of the cascading delete** (explicit measure: table size − in-progress set size).
@@ -284,7 +321,7 @@ theorem deleteA_terminates (σ : Schema) (keys0 : List Bytes) : ∀ (n : Nat) (p
   | succ n ih =>
     intro prog s id hnd hsub hid hkeys hc hlen h
     obtain ⟨e, he⟩ := (Map.contains_iff _ _).1 hc
-    obtain ⟨_, s2, has2, hcas⟩ := deleteA_diverge_inv h
+    obtain ⟨_, s2, hs2, hcas⟩ := deleteA_diverge_inv h
     have hmark : mark prog id = id :: prog := by simp [mark, hid]
     rw [hmark] at hcas
     refine cascadeOver_no_diverge (s0 := s2)
@@ -297,9 +334,7 @@ theorem deleteA_terminates (σ : Schema) (keys0 : List Bytes) : ∀ (n : Nat) (p
       · exact hkeys _ e he
       · exact hsub y hy'
     · intro k ek hk
-      have := hsubst k ek hk
-      rw [has2] at this
-      exact hkeys k ek this
+      exact hkeys k ek (hs2 k ek (hsubst k ek hk))
     · simp only [List.length_cons]; omega
 
 theorem keys_length {V : Type} (m : Map V) : m.keys.length = m.length := by simp [Map.keys]
@@ -319,121 +354,131 @@ where
 
 /-! ### progress: under the invariant a delete is never refused for a spurious reason -/
 
-theorem SetExact.congr {f : EntA → FV} {P Q : Bytes → Prop} {as : Map EntA} {m : Map (List Bytes)}
-    (hpq : ∀ k, P k ↔ Q k) (h : SetExact f P as m) : SetExact f Q as m := by
-  intro t k
-  rw [h t k]
-  constructor
-  · rintro ⟨e, he, h1, h2, h3⟩; exact ⟨e, he, h1, h2, fun hq => h3 ((hpq k).2 hq)⟩
-  · rintro ⟨e, he, h1, h2, h3⟩; exact ⟨e, he, h1, h2, fun hp => h3 ((hpq k).1 hp)⟩
-
-theorem GInv.congr {σ : Schema} {P Q : Bytes → Prop} {s : St} (hpq : ∀ k, P k ↔ Q k) (h : GInv σ P s) : GInv σ Q s :=
-  ⟨h.things.congr hpq, h.minions.congr hpq, h.ownerT, fun k e he hq => h.bossT k e he (fun hp => hq ((hpq k).1 hp)),
-    h.depT, h.bossNN, h.depNN, h.thingsK, h.minionsK, h.nonEmpty, h.nonEmptyB⟩
-
 def OkOrDiverge (r : Res) : Prop := (∃ st', r = .ok st') ∨ r = .error .diverge
 
-theorem cascade_progress {σ : Schema} {Q : Bytes → Prop} {del : St → Bytes → Res} {f : EntA → FV} {id : Bytes}
-    {skip : List Bytes}
-    (hprog : ∀ st x, GInv σ Q st → x ∉ skip → st.as.contains x = true → OkOrDiverge (del st x))
-    (hdel : ∀ st x st', GInv σ Q st → del st x = .ok st' → GInv σ Q st') :
-    ∀ (cands : List Bytes) (st : St), GInv σ Q st → OkOrDiverge (cascadeOver del f id skip cands st) := by
+/-- `R` : an additional state predicate carried along the loop (e.g. "sub-table of the initial state") -/
+theorem cascade_progress {σ : Schema} {Q : Bytes → Prop} {R : St → Prop} {del : St → Bytes → Res} {f : EntA → FV}
+    {id : Bytes} {skip : List Bytes}
+    (hprog : ∀ st x, GInv σ Q st → R st → x ∉ skip → isReferrer st f id x = true → OkOrDiverge (del st x))
+    (hdel : ∀ st x st', GInv σ Q st → R st → del st x = .ok st' → GInv σ Q st' ∧ R st') :
+    ∀ (cands : List Bytes) (st : St), GInv σ Q st → R st → OkOrDiverge (cascadeOver del f id skip cands st) := by
   intro cands
   induction cands with
-  | nil => intro st _; exact Or.inl ⟨st, rfl⟩
+  | nil => intro st _ _; exact Or.inl ⟨st, rfl⟩
   | cons c rest ih =>
-    intro st hI
+    intro st hI hR
     simp only [cascadeOver, List.foldlM_cons]
     by_cases hcs : c ∈ skip
     · simp only [hcs, if_true]
-      exact ih st hI
+      exact ih st hI hR
     · simp only [hcs, if_false]
       by_cases hr : isReferrer st f id c = true
       · simp only [hr, if_true]
-        obtain ⟨e, he, _⟩ := (isReferrer_iff st f id c).1 hr
-        rcases hprog st c hI hcs ((Map.contains_iff _ _).2 ⟨e, he⟩) with ⟨st1, h1⟩ | h1
-        · rw [h1]; exact ih st1 (hdel st c st1 hI h1)
+        rcases hprog st c hI hR hcs hr with ⟨st1, h1⟩ | h1
+        · rw [h1]
+          obtain ⟨a, b⟩ := hdel st c st1 hI hR h1
+          exact ih st1 a b
         · rw [h1]; exact Or.inr rfl
       · simp only [hr]
-        exact ih st hI
+        exact ih st hI hR
 
-theorem idxDel_ok_of_target {tgt : Bytes → Bool} {v id : Bytes} {m : Map (List Bytes)}
-    (h : v ≠ [] → tgt v = true) : ∃ m', idxDel tgt v id m = .ok m' := by
-  unfold idxDel
-  by_cases hv : v = []
-  · simp [hv]
-  · simp [hv, h hv]
+/-- one round makes progress: the index steps cannot fail (001d2d2), the cascade loop only meets entities
+    that are not in progress -/
+theorem pass_progress {σ : Schema} {n : Nat} {prog : List Bytes} {Q : Bytes → Prop} {s : St} {id : Bytes}
+    (hI : GInv σ Q s) (hQ : ∀ k, plus Q id k ↔ k ∈ mark prog id)
+    (ih : ∀ st x, GInv σ (· ∈ mark prog id) st → x ∉ mark prog id → isReferrer st (·.boss) id x = true →
+      OkOrDiverge (deleteA σ n (mark prog id) st x)) :
+    (∃ s3, passA σ (deleteA σ n) prog id s = .ok s3 ∧ GInv σ (· ∈ mark prog id) s3) ∨
+      passA σ (deleteA σ n) prog id s = .error .diverge := by
+  let m1 := idxDelB s.bs.contains (fieldOf s id (·.owner)) id s.things
+  let m2 := idxDelB s.as.contains (fieldOf s id (·.boss)) id s.minions
+  have h1 : ∀ del, beforeDeleteA del prog id s .ownerIdx = .ok { s with things := m1 } := by
+    intro del; rw [ownerDel_eq]
+  have h2 : ∀ del, beforeDeleteA del prog id { s with things := m1 } .bossIdx = .ok { s with things := m1, minions := m2 } := by
+    intro del; rw [bossDel_eq]; rfl
+  obtain ⟨hI2', _, _⟩ := preDelete_inv (del := deleteA σ n) hI (h1 _) (h2 _)
+  have hI2 : GInv σ (· ∈ mark prog id) { s with things := m1, minions := m2 } := hI2'.congr hQ
+  have hcas := cascade_progress (R := fun _ => True) (f := (·.boss)) (id := id) (skip := mark prog id)
+    (fun st x a _ hx b => ih st x a hx b)
+    (fun st x st' a _ b => ⟨(deleteA_inv σ n (· ∈ mark prog id) (mark prog id) st x st' a (fun _ h => h) b).1, trivial⟩)
+    (referrers { s with things := m1, minions := m2 } (·.boss) id) _ hI2 trivial
+  have hdep : ∀ st, beforeDeleteA (deleteA σ n) prog id st .depFk = .ok st := fun st => rfl
+  have hfold : passA σ (deleteA σ n) prog id s =
+      cascadeOver (deleteA σ n (mark prog id)) (·.boss) id (mark prog id)
+        (referrers { s with things := m1, minions := m2 } (·.boss) id) { s with things := m1, minions := m2 } := by
+    have hcasc : ∀ st, beforeDeleteA (deleteA σ n) prog id st .bossCascade =
+        cascadeOver (deleteA σ n (mark prog id)) (·.boss) id (mark prog id) (referrers st (·.boss) id) st := fun st => rfl
+    have okb : ∀ (a : St) (f : St → Res), (Except.ok a >>= f) = f a := fun _ _ => rfl
+    have bpure : ∀ (x : Res), (x >>= fun v => pure v) = x := by intro x; cases x <;> rfl
+    unfold passA orderA
+    cases hdf : σ.depFirst
+    case true =>
+      simp only [if_true, List.foldlM_cons, List.foldlM_nil]
+      rw [hdep, okb, h1, okb, h2, okb, hcasc, bpure]
+    case false =>
+      simp only [Bool.false_eq_true, if_false, List.foldlM_cons, List.foldlM_nil]
+      rw [h1, okb, h2, okb, hcasc]
+      have : (fun s' => beforeDeleteA (deleteA σ n) prog id s' CA.depFk >>= fun s' => pure s') = fun v => pure v := by
+        funext s'; rw [hdep]; rfl
+      rw [this, bpure]
+  rw [hfold]
+  rcases hcas with ⟨s3, h3⟩ | h3
+  · refine Or.inl ⟨s3, h3, ?_⟩
+    exact (cascadeOver_spec (Q := (· ∈ mark prog id))
+      (fun st x st' a b => deleteA_inv σ n (· ∈ mark prog id) (mark prog id) st x st' a (fun _ h => h) b)
+      _ _ s3 hI2 h3).1
+  · exact Or.inr h3
 
 /-- **under the invariant, `DeleteById` on an existing A entity that is not in progress succeeds or
-    runs out of fuel** — never not-found, never bucket-not-found, never a reference error -/
+    runs out of fuel** — never not-found, never bucket-not-found, never a reference error; with one round
+    or, for an entity with child-store data, two (the second round may find the boss already deleted by the
+    first round's cascade — a reference cycle through the entity; since 001d2d2 that is skipped, before it
+    was a not-found failure). -/
 theorem deleteA_progress (σ : Schema) : ∀ (n : Nat) (prog : List Bytes) (s : St) (id : Bytes),
-    GInv σ (· ∈ prog) s → id ∉ prog → s.as.contains id = true → OkOrDiverge (deleteA σ n prog s id) := by
+    GInv σ (· ∈ prog) s → id ∉ prog → s.as.contains id = true →
+    OkOrDiverge (deleteA σ n prog s id) := by
   intro n
   induction n with
   | zero => intro prog s id _ _ _; exact Or.inr rfl
   | succ n ih =>
     intro prog s id hI hid hc
     obtain ⟨e, he⟩ := (Map.contains_iff _ _).1 hc
-    -- the two index steps succeed: the targets exist
-    obtain ⟨m1, hm1⟩ := idxDel_ok_of_target (tgt := s.bs.contains) (v := fieldOf s id (·.owner)) (id := id) (m := s.things)
-      (by intro hne; have := hI.ownerT id e he; simp only [fieldOf, he] at hne ⊢; exact this hne)
-    have h1 : ∀ del, beforeDeleteA del prog id s .ownerIdx = .ok { s with things := m1 } := by
-      intro del; rw [ownerDel_eq, hm1]; rfl
-    obtain ⟨m2, hm2⟩ := idxDel_ok_of_target (tgt := s.as.contains) (v := fieldOf s id (·.boss)) (id := id) (m := s.minions)
-      (by intro hne; have := hI.bossT id e he hid; simp only [fieldOf, he] at hne ⊢; exact this hne)
-    have h2 : ∀ del, beforeDeleteA del prog id { s with things := m1 } .bossIdx = .ok { s with things := m1, minions := m2 } := by
-      intro del; rw [bossDel_eq]
-      have : fieldOf { s with things := m1 } id (·.boss) = fieldOf s id (·.boss) := rfl
-      rw [this]; simp only; rw [hm2]; rfl
-    obtain ⟨hI2', _, _⟩ := preDelete_inv (del := deleteA σ n) hI (h1 _) (h2 _)
     have hmarkiff : ∀ k, plus (· ∈ prog) id k ↔ k ∈ mark prog id := by
       intro k; rw [mem_mark]; unfold plus; exact Or.comm
-    have hI2 : GInv σ (· ∈ mark prog id) { s with things := m1, minions := m2 } := hI2'.congr hmarkiff
-    have hc2 : ({ s with things := m1, minions := m2 } : St).as.contains id = true := hc
-    have hcas := cascade_progress (f := (·.boss)) (id := id) (skip := mark prog id)
-      (fun st x a hx b => ih (mark prog id) st x a hx b)
-      (fun st x st' a b => (deleteA_inv σ n (· ∈ mark prog id) (mark prog id) st x st' a (fun _ h => h) b).1)
-      (referrers { s with things := m1, minions := m2 } (·.boss) id) _ hI2
-    have hdep : ∀ st, beforeDeleteA (deleteA σ n) prog id st .depFk = .ok st := fun st => rfl
+    have hmarkiff2 : ∀ k, plus (· ∈ mark prog id) id k ↔ k ∈ mark prog id := by
+      intro k; unfold plus
+      constructor
+      · rintro (h | h)
+        · exact h
+        · exact (mem_mark prog id k).2 (Or.inl h)
+      · exact Or.inl
+    have ihn : ∀ st x, GInv σ (· ∈ mark prog id) st → x ∉ mark prog id → isReferrer st (·.boss) id x = true →
+        OkOrDiverge (deleteA σ n (mark prog id) st x) := by
+      intro st x a hx hr
+      obtain ⟨ex, hex, _⟩ := (isReferrer_iff st _ id x).1 hr
+      exact ih (mark prog id) st x a hx ((Map.contains_iff _ _).2 ⟨ex, hex⟩)
+    have hkeep : ∀ st s3, st.as.lookup id = some e → passA σ (deleteA σ n) prog id st = .ok s3 →
+        s3.as.contains id = true := by
+      intro st s3 hst h3
+      exact (Map.contains_iff _ _).2 ⟨e, pass_keeps_id h3 hst⟩
     unfold deleteA
     simp only [hc, if_true]
-    have hfold : (orderA σ).foldlM (beforeDeleteA (deleteA σ n) prog id) s =
-        cascadeOver (deleteA σ n (mark prog id)) (·.boss) id (mark prog id)
-          (referrers { s with things := m1, minions := m2 } (·.boss) id) { s with things := m1, minions := m2 } := by
-      have hcasc : ∀ st, beforeDeleteA (deleteA σ n) prog id st .bossCascade =
-          cascadeOver (deleteA σ n (mark prog id)) (·.boss) id (mark prog id) (referrers st (·.boss) id) st := fun st => rfl
-      have okb : ∀ (a : St) (f : St → Res), (Except.ok a >>= f) = f a := fun _ _ => rfl
-      have bpure : ∀ (x : Res), (x >>= fun v => pure v) = x := by intro x; cases x <;> rfl
-      unfold orderA
-      cases hdf : σ.depFirst
-      case true =>
-        simp only [if_true, List.foldlM_cons, List.foldlM_nil]
-        rw [hdep, okb, h1, okb, h2, okb, hcasc, bpure]
-      case false =>
-        simp only [Bool.false_eq_true, if_false, List.foldlM_cons, List.foldlM_nil]
-        rw [h1, okb, h2, okb, hcasc]
-        have : (fun s' => beforeDeleteA (deleteA σ n) prog id s' CA.depFk >>= fun s' => pure s') = fun v => pure v := by
-          funext s'; rw [hdep]; rfl
-        rw [this, bpure]
-    rw [hfold]
-    rcases hcas with ⟨s3, h3⟩ | h3
-    · rw [h3]
-      -- the cascade removes nothing that is in progress, in particular not `id`
-      have hrem := (cascadeOver_removed (f := (·.boss)) (id := id) (skip := mark prog id)
-        (fun st x st' hx hd => by
-          obtain ⟨a, b⟩ := deleteA_removed σ n (mark prog id) st x st' hd
-          refine ⟨a, fun k e he hn => ?_⟩
-          rcases b k e he hn with rfl | ⟨h1, h2⟩
-          · exact ⟨hx, Or.inl rfl⟩
-          · exact ⟨fun hk => h1 ((mem_mark _ _ _).2 (Or.inr hk)), Or.inr h2⟩)
-        _ _ s3 h3).2
-      have : s3.as.contains id = true := by
-        cases hk : s3.as.lookup id with
-        | some v => exact (Map.contains_iff _ _).2 ⟨v, hk⟩
-        | none => exact absurd ((mem_mark prog id id).2 (Or.inl rfl)) (hrem id e he hk).1
-      simp only [this, if_true]
-      exact Or.inl ⟨_, rfl⟩
-    · rw [h3]; exact Or.inr rfl
+    cases hx : hasExt s id
+    case false =>
+      simp only [Bool.false_eq_true, if_false]
+      rcases pass_progress hI hmarkiff ihn with ⟨s3, h3, _⟩ | h3
+      · rw [h3]; simp only [hkeep s s3 he h3, if_true]; exact Or.inl ⟨_, rfl⟩
+      · rw [h3]; exact Or.inr rfl
+    case true =>
+      simp only [if_true]
+      rcases pass_progress hI hmarkiff ihn with ⟨s0, h0, hI0⟩ | h0
+      · rw [h0]
+        simp only
+        have he0 : s0.as.lookup id = some e := pass_keeps_id h0 he
+        rcases pass_progress hI0 hmarkiff2 ihn with ⟨s3, h3, _⟩ | h3
+        · rw [h3]; simp only [hkeep s0 s3 he0 h3, if_true]; exact Or.inl ⟨_, rfl⟩
+        · rw [h3]; exact Or.inr rfl
+      · rw [h0]; exact Or.inr rfl
 
 theorem GInv.ofInv {σ : Schema} {s : St} (h : Inv σ s) : GInv σ (· ∈ ([] : List Bytes)) s :=
   h.congr (fun k => by simp [none'])
@@ -466,10 +511,14 @@ theorem deleteB_progress {σ : Schema} {s : St} {b : Bytes} (hI : Inv σ s) (hc 
         (fun st x st' a => (deleteA_removed σ _ [] st x st' a).1)
         (fun st x hs _ _ => deleteA_top_terminates σ s st x hs)
         (referrers st (·.dep) b) st hsub
-      rcases cascade_progress (f := (·.dep)) (id := b) (skip := []) (Q := none')
-        (fun st x a _ c => deleteA_progress σ (fuelOf s) [] st x (GInv.ofInv a) (by simp) c)
-        (fun st x st' a c => (deleteA_inv σ (fuelOf s) none' [] st x st' a (fun _ h => by cases h) c).1)
-        (referrers st (·.dep) b) st hst with ⟨st', h⟩ | h
+      rcases cascade_progress (R := fun st => Sub st s) (f := (·.dep)) (id := b) (skip := []) (Q := none')
+        (fun st x a hs _ c => by
+          obtain ⟨ex, hex, _⟩ := (isReferrer_iff st _ b x).1 c
+          exact deleteA_progress σ (fuelOf s) [] st x (GInv.ofInv a) (by simp) ((Map.contains_iff _ _).2 ⟨ex, hex⟩))
+        (fun st x st' a hs c => by
+          obtain ⟨i, sb, _, _⟩ := deleteA_inv σ (fuelOf s) none' [] st x st' a (fun _ h => by cases h) c
+          exact ⟨i, sb.trans hs⟩)
+        (referrers st (·.dep) b) st hst hsub with ⟨st', h⟩ | h
       · exact Or.inl ⟨st', h⟩
       · exact absurd h hnd
     · split
